@@ -220,7 +220,7 @@ func c16Wire(r *vfRun) {
 		want[d] = map[string]int64{}
 		for i := 0; i < sizes[d]; i++ {
 			name := fmt.Sprintf("d%d-e%03d", d, i)
-			s.fs.nodes[dir+"/"+name] = &sfNode{kind: 'f', data: make([]byte, (7*d+i)%40), mode: os.FileMode(0o600 + (i*37)%0o200), mtime: 1000000000 + int64(i)*86400*40, uid: uint32(100*d + i), gid: uint32(5 + i), shape: byte((d + i) % 4)}
+			s.fs.nodes[dir+"/"+name] = &sfNode{kind: 'f', data: make([]byte, (7*d+i)%40), mode: os.FileMode(0o600 + (i*37)%0o200), mtime: 1000000000 + int64(i)*86400*40, uid: uint32(100*d + i), gid: uint32(5 + i), shape: byte((d + i) % 5)}
 			want[d][name] = int64((7*d + i) % 40)
 		}
 	}
@@ -570,8 +570,8 @@ func c16Exec(r *vfRun) {
 				v.fs.nodes["/dd/"+name] = nd
 				w := entry{size: int64(len(nd.data)), perm: nd.mode & (os.ModePerm | os.ModeDir), mtime: nd.mtime, uid: nd.uid, gid: nd.gid, ids: true}
 				if sc.cfg("shapes", 0) != 0 {
-					switch nd.shape = byte(vfMix(sc.Seed^0x5a, uint64(i)) % 4); nd.shape {
-					case 1:
+					switch nd.shape = byte(vfMix(sc.Seed^0x5a, uint64(i)) % 5); nd.shape {
+					case 1, 4:
 						w.uid, w.gid = 0, 0 // not reported, so the client must show none
 					case 2:
 						nd.ext = []StatExtended{{ExtType: fmt.Sprintf("t%d@x", i), ExtData: fmt.Sprintf("d%d", i)}}
